@@ -318,6 +318,65 @@ func c21Gen(g *Gen) {
 		}
 		g.Case(lines...)
 	}
+	// (5) the client over a REAL http.Transport and listener: connection-level faults after the
+	// server received the whole request, on fresh and on reused keep-alive connections; requests are
+	// recorded where the server receives them, so a resend made below the client is visible.
+	netFaults := []string{"netdrop", "netreset", "netdropafter", "nethalf"}
+	ncfg := "cfg enc=1048576 dec=1048576 limit=1 net=1"
+	exok := "ex in=ok big=0 rows=1 md=0 turn=echo f=ok"
+	for _, f := range netFaults {
+		for pos := 1; pos <= 3; pos++ {
+			lines := []string{ncfg, "open kind=x hdr=0 decl=ok hdecl=ok plan=- f=ok"}
+			for k := 1; k < pos; k++ {
+				lines = append(lines, exok)
+			}
+			lines = append(lines, "ex in=ok big=0 rows=2 md=1 turn=meta f="+f, exok, "cancel f=ok", exok, "st")
+			g.Case(lines...)
+			pl := []string{"cfg enc=1048576 dec=1048576 limit=1 net=1", "open kind=p hdr=0 decl=ok hdecl=ok plan=n:5;rows:1 f=ok"}
+			for k := 1; k < pos; k++ {
+				pl = append(pl, "next f=ok")
+			}
+			pl = append(pl, "next f=ok", "next f="+f, "next f=ok", "next f=ok", "cancel f=ok", "st")
+			g.Case(pl...)
+		}
+		g.Case(ncfg, "open kind=x hdr=0 decl=ok hdecl=ok plan=- f="+f, "open kind=x hdr=1 decl=ok hdecl=ok plan=- f=ok", exok, "cancel f="+f, exok, "st")
+		g.Case(ncfg, "open kind=x hdr=0 decl=ok hdecl=ok plan=- f=ok", exok, exok, "cancel f="+f, "cancel f=ok", exok)
+		g.Case(ncfg, "unary decl=ok plan=v:1 f=ok", "unary decl=ok plan=v:2 f="+f, "unary decl=ok plan=v:3 f=ok", "unary decl=nil plan=err:ValueError f=ok")
+	}
+	for i, nn := 0, g.N(24, 400); i < nn; i++ {
+		lines := []string{fmt.Sprintf("cfg enc=1048576 dec=1048576 limit=%d net=1", r.Range(0, 2))}
+		nf := func() string {
+			if r.Chance(70) {
+				return "ok"
+			}
+			return Pick(r, netFaults)
+		}
+		if r.Bool() {
+			lines = append(lines, "open kind=x hdr=0 decl=ok hdecl=ok plan=- f="+nf())
+			for k, nops := 0, r.Range(2, 8); k < nops; k++ {
+				switch y := r.Intn(100); {
+				case y < 75:
+					lines = append(lines, fmt.Sprintf("ex in=ok big=0 rows=%d md=%d turn=%s f=%s", r.Range(0, 3), r.Intn(2), Pick(r, c21Turns), nf()))
+				case y < 85:
+					lines = append(lines, "cancel f="+nf())
+				case y < 92:
+					lines = append(lines, "st")
+				default:
+					lines = append(lines, "open kind=x hdr=0 decl=ok hdecl=ok plan=- f="+nf())
+				}
+			}
+		} else {
+			lines = append(lines, "open kind=p hdr=0 decl=ok hdecl=ok plan="+c21ProdPlan(r)+" f="+nf())
+			for k, nops := 0, r.Range(2, 8); k < nops; k++ {
+				if r.Chance(85) {
+					lines = append(lines, "next f="+nf()+","+nf())
+				} else {
+					lines = append(lines, "cancel f="+nf())
+				}
+			}
+		}
+		g.Case(lines...)
+	}
 	if g.Thorough() {
 		// (4) pairs of faults on consecutive exchange turns, and on producer turns
 		for i, f1 := range c21FaultCatalogue {
@@ -365,11 +424,17 @@ func c21Exec(c *Case) {
 	ctx := context.Background()
 	var so *c21StreamOracle
 
-	setup := func(enc, dec int64, limit int) {
-		env.maxEnc, env.maxDec = enc, dec
+	defer env.netStop()
+	setup := func(enc, dec int64, limit int, overNet bool) {
+		env.netStop()
+		env.maxEnc, env.maxDec, env.net = enc, dec, overNet
 		c21NewServer(env, limit)
 		env.rt = &c21RT{env: env}
-		cl, err := vgirpc.NewHttpClient("http://c21.test",
+		base := "http://c21.test"
+		if overNet {
+			base = env.netStart()
+		}
+		cl, err := vgirpc.NewHttpClient(base,
 			vgirpc.WithClientHTTPClient(&http.Client{Transport: env.rt}),
 			vgirpc.WithClientResponseLimits(enc, dec),
 			vgirpc.WithClientRequestLimit(c21MaxReq))
@@ -388,9 +453,16 @@ func c21Exec(c *Case) {
 		}
 		return fmt.Sprintf("tok=%s fin=%d", env.tokID(tok), map[bool]int{false: 0, true: 1}[fin])
 	}
+	// reqs: the requests of the current call — in the net family as received by the SERVER
+	reqs := func() []c21Wire {
+		if env.net {
+			return env.netSeen()
+		}
+		return env.rt.wire
+	}
 	sentObs := func() string {
 		var parts []string
-		for _, w := range env.rt.wire {
+		for _, w := range reqs() {
 			switch w.kind {
 			case "init", "unary":
 				parts = append(parts, w.kind)
@@ -421,7 +493,17 @@ func c21Exec(c *Case) {
 		if so == nil {
 			return
 		}
-		for _, w := range env.rt.wire {
+		rs := reqs()
+		for i, w := range rs {
+			if env.net {
+				// responses are observed on the client side; credit them to the last request
+				w.tokens = nil
+				if i == len(rs)-1 {
+					for _, cw := range env.rt.wire {
+						w.tokens = append(w.tokens, cw.tokens...)
+					}
+				}
+			}
 			if w.kind != "cont" {
 				continue
 			}
@@ -469,7 +551,7 @@ func c21Exec(c *Case) {
 				}
 			}
 			switch name {
-			case "dropreq", "dropresp", "readerr":
+			case "dropreq", "dropresp", "readerr", "netdrop", "netreset", "netdropafter", "nethalf":
 				return "transport-error-swallowed"
 			case "st", "stt":
 				if n, _ := strconv.Atoi(arg); n < 200 || n >= 300 {
@@ -628,15 +710,18 @@ func c21Exec(c *Case) {
 				c.Out(l, "err:bad-line")
 				continue
 			}
-			setup(enc, dec, limit)
+			setup(enc, dec, limit, kv["net"] == "1")
 			c.Out(fmt.Sprintf("cfg %d %d", enc, dec), "ok")
 			continue
 		}
 		if env.client == nil {
-			setup(1<<20, 1<<20, 0)
+			setup(1<<20, 1<<20, 0, false)
 			c.Out("cfg 1048576 1048576", "ok")
 		}
 		env.rt.begin(faultsOf(kv))
+		if env.net {
+			env.netBegin(faultsOf(kv))
+		}
 		raisedFrom := len(env.raised)
 		emittedFrom := len(env.emitted)
 		switch f[0] {
@@ -690,7 +775,7 @@ func c21Exec(c *Case) {
 				c.Stat("open-" + res[:min(len(res), 12)])
 			} else {
 				env.stream = st
-				so = &c21StreamOracle{exchange: exchange, issued: map[string]bool{}, burnt: map[string]bool{}, clean: passThrough(), servedAt: emittedFrom}
+				so = &c21StreamOracle{exchange: exchange, issued: map[string]bool{}, burnt: map[string]bool{}, clean: passThrough() && !strings.Contains(plan, "clashat"), servedAt: emittedFrom}
 				for _, w := range env.rt.wire {
 					for _, t := range w.tokens {
 						so.issued[t] = true
@@ -911,6 +996,12 @@ func c21Exec(c *Case) {
 
 		default:
 			c.Out(l, "err:bad-line")
+		}
+		if env.net {
+			if got, want := len(env.netSeen()), len(env.rt.wire); got != want {
+				c.Oracle("request-resent-below-client", fmt.Sprintf("%s: the client made %d HTTP call(s) but the server received %d request(s)", f[0], want, got))
+			}
+			c.Stat("net-op")
 		}
 		for _, w := range env.rt.wire {
 			name := w.fault
